@@ -785,17 +785,15 @@ class Model(Object):
                         context(partial(model_metabolite._reaction.remove, reaction))
                         if model_metabolite is not metabolite:
                             # give the reaction its own metabolite object back (it may
-                            # return to a state in which that object is the model's)
-                            context(
-                                partial(
-                                    reaction._metabolites.__setitem__,
-                                    metabolite,
-                                    stoichiometry,
-                                )
-                            )
-                            context(
-                                partial(reaction._metabolites.pop, model_metabolite)
-                            )
+                            # return to a state in which that object is the model's);
+                            # the dictionary is looked up when the undo runs, other
+                            # operations replace it (e.g. multiplication)
+                            def repoint(
+                                rxn=reaction, new=model_metabolite, old=metabolite
+                            ):
+                                rxn._metabolites[old] = rxn._metabolites.pop(new)
+
+                            context(repoint)
             reaction.update_genes_from_gpr()
 
         self.reactions += pruned
